@@ -95,8 +95,8 @@ class CleanMachine(Machine):
         return [(fresh, stale)] + viol
 
 
-def run(ctx):
-    chk = Check('C05', ctx)
+def run(ctx, host=None):
+    chk = host.sub('C05') if host is not None else Check('C05', ctx)
     prog, K, E = ctx.prog, ctx.kinds, ctx.effects
     R1 = chk.rule('C05.R1', 'loose object: written in sandbox, flushed+closed, published by one atomic rename/replace', 0)
     R1o = chk.rule('C05.R1o', 'nobody opens for writing / writes a file under loose/ (ownership)', 1)
